@@ -7,10 +7,11 @@ both stream kinds, eager and lazy, any stream state, any previous object):
  * `load_inv` (`secLoad_inv`, `segLoad_inv`): every section/segment of the result satisfies
    `LoadedSec` / `LoadedSeg`: a resident buffer is exactly the `size` input bytes at the (translated)
    offset plus the NUL terminator (`alloc 1` for size 0), data_size = size, the recorded stream size is
-   the input length or SIZE_MAX (then the section is the zeroed SHT_NULL one);
+   the input length (also with a translation table) or SIZE_MAX (then the section is the zeroed SHT_NULL one);
  * `load_alloc_shape` / `load_alloc_bound`: every allocation request is size+1 for a range inside the
-   input, hence <= len+1, with equality exactly for the range [0,len) (finding F11); hypotheses: no
-   translation, len < 2^64;
+   input, hence <= len+1, with equality exactly for the range [0,len) (finding F11); hypothesis:
+   len < 2^64 — with or without an address translation table since the F16 repair (the range is the
+   translated one, len the length of the stream that is read);
  * `getData_inv` / `getData_alloc_bound`: arbitrary interleavings of section/segment get_data() and
    free_data() with arbitrary indices keep the invariants and the allocation bound (lazy loads mutate);
  * `getString_total`: the string reader is safe on every loaded section for EVERY 32-bit index and
